@@ -4,6 +4,8 @@ namespace Ln
 
 abbrev Text := List Char
 
+deriving instance DecidableEq for Except
+
 open Lean in
 /-- `cs!"abc"` expands to `['a','b','c']`, which `decide` can reduce in the kernel
 (`String` literals do not kernel-reduce in Lean 4.33). -/
